@@ -193,10 +193,13 @@ int main(void)
 			}
 			sqfs_drop(fp);
 			free(buf);
-		} else if (strcmp(op, "iter") == 0) {
-			/* iter <stream>: the tar directory iterator; every regular file is read through the sparse-expanding stream */
+		} else if (strcmp(op, "iter") == 0 || strcmp(op, "iterw") == 0) {
+			/* iter <stream>: the tar directory iterator; every regular file is read through the sparse-expanding stream
+			   in requests of 512 bytes; iterw <want> <stream>: the same with requests of <want> bytes (1..65536) */
+			char *w = op[4] == 'w' ? next_tok() : "512";
 			char *a = next_tok(); unsigned char *buf; long n; sqfs_istream_t *fp; sqfs_dir_iterator_t *it; int ret, cnt = 0;
-			if (!a || (n = hex_decode_tok(a, &buf, 0)) < 0) { puts("bad-op"); continue; }
+			size_t want = w ? (size_t)strtoul(w, NULL, 10) : 0;
+			if (!a || want < 1 || want > 65536 || (n = hex_decode_tok(a, &buf, 0)) < 0) { puts("bad-op"); continue; }
 			fp = istream_memory_create("mem", 1024, buf, (size_t)n);
 			it = tar_open_stream(fp, NULL);
 			sqfs_drop(fp);
@@ -214,13 +217,25 @@ int main(void)
 					if (it->read_link(it, &l) == 0 && l) { fputs(" link=", stdout); hex_print(stdout, (unsigned char *)l, strlen(l)); free(l); }
 					else fputs(" link=null", stdout);
 				}
+				{	/* device number and xattrs as tar2sqfs gets them (it->read_xattr: a copy of the list of the current header) */
+					sqfs_xattr_t *xl = NULL, *x; int first = 1;
+					printf(" maj=%u min=%u xattr=", (unsigned)major(ent->rdev), (unsigned)minor(ent->rdev));
+					if (it->read_xattr(it, &xl) != 0) fputs("read-failed", stdout);
+					else if (!xl) fputs("-", stdout);
+					for (x = xl; x; x = x->next) {
+						if (!first) putchar(',');
+						hex_print(stdout, (const unsigned char *)x->key, strlen(x->key)); putchar(':');
+						hex_print(stdout, x->value, x->value_len); first = 0;
+					}
+					sqfs_xattr_list_free(xl);
+				}
 				if (S_ISREG(ent->mode)) {
 					sqfs_istream_t *in = NULL;
 					if (it->open_file_ro(it, &in) != 0) fputs(" data=open-failed", stdout);
 					else {
-						static unsigned char keep[8192]; unsigned char tmp[512]; size_t total = 0; int r2;
+						static unsigned char keep[8192]; static unsigned char tmp[65536]; size_t total = 0; int r2;
 						for (;;) {
-							r2 = sqfs_istream_read(in, tmp, sizeof(tmp));
+							r2 = sqfs_istream_read(in, tmp, want);
 							if (r2 <= 0) break;
 							if (total + (size_t)r2 <= sizeof(keep)) memcpy(keep + total, tmp, (size_t)r2);
 							total += (size_t)r2;
